@@ -435,6 +435,33 @@ static void space_sfx(void)
 			vf_nontrivial(vf_mix(L, fam * 8 + kind));
 		}
 	}
+	/* the archive itself is a PMarc self-extractor: its stub holds the text '-pms-' in header position, which is not a header
+	 * wherever in the stream it comes to lie */
+	{
+		static ab_arc a2;
+		static obs_t base2[K_COUNT];
+		static const char stub[] = "MZ PMarc self extractor \x1a\x00\x00-pms-\x00\x10SFX by PMSFX\r\n\x00\x00\x00\x00\x00\x00\x00\x00\x00\x00";
+		if (!a2.buf) {
+			a2.buf = malloc(a->n + 256); a2.cap = a->n + 256;
+			memcpy(a2.buf, stub, sizeof stub - 1);
+			memcpy(a2.buf + sizeof stub - 1, a->buf, a->n);
+			a2.n = sizeof stub - 1 + a->n;
+			for (kind = 0; kind < K_COUNT; ++kind) walk(kind, a2.buf, a2.n, 1, 4096, &base2[kind]);
+		}
+		if (vf_case("a PMarc self-extractor stub ('-pms-' in header position) in front of archive 0, all stream kinds"))
+			for (kind = 0; kind < K_COUNT; ++kind)
+				if (obs_hash(&base2[kind]) != obs_hash(&base[kind]))
+					vf_viol("c16-sfx-prefix", "PMarc self-extractor stub: %d members after it, %d without (%s)", base2[kind].members, base[kind].members, KIND_NAME[kind]);
+		for (fam = 0; fam < 3; ++fam)
+		for (L = 0; L <= 1100; L += (L < 64 ? 1 : L < 1000 ? 117 : 25))
+		for (kind = 1; kind <= 2; ++kind) {
+			size_t i;
+			if (!vf_case("clean prefix of %zu bytes in front of a PMarc self-extractor, filler family %d, %s", L, fam, KIND_NAME[kind])) continue;
+			for (i = 0; i < L; ++i) pre[i] = fam == 0 ? 0 : fam == 1 ? (uint8_t) ('A' + i % 23) : (uint8_t) (0x80 | (i * 37 % 127));
+			sfx_check(pre, L, &a2, kind, &base2[kind], "clean prefix before a PMarc self-extractor");
+			vf_nontrivial(vf_mix(L, 700 + fam * 8 + kind));
+		}
+	}
 	/* near-miss fragments at every offset of prefixes up to 40 bytes */
 	for (fi = 0; fi < sizeof frags / sizeof *frags; ++fi)
 	for (L = 1; L <= 40; ++L) {
